@@ -17,6 +17,7 @@ THEOREMS = [P + t for t in (
     "roundtrip_import_string", "roundtrip_import_direct", "readDoc_serialize",
     "roundtrip_graphml_doc", "roundtrip_json_doc", "roundtrip_json_counterexample",
     "addGraph_extract", "addGraphDirect_extract", "extract_spec",
+    "reserialize_stable_partial", "copy_renaming_injective",
     "import_frame_string", "import_frame_direct", "labels_markup", "classKey_spec",
     "mixed_graph_ids_rejected", "iter_idem", "iterFrom_map",
 )]
@@ -31,6 +32,9 @@ TRUSTED_BASE = [
     "format a text is after checking json.loads succeeds exactly on the JSON texts",
     "the reader models are exact for simple documents only (distinct node ids, declared endpoints, no parallel edges); the "
     "harness asserts this for every document it feeds",
+    "the store is loaded into the driver as graphs.nodes(data=True) / graphs.edges(data=True); the model's edge list is a global "
+    "insertion order, and loading the iteration order instead is behaviourally equivalent for extraction (checked by the whole-store "
+    "dump comparison after every import)",
     "Python == between GraphID values is modelled by structural equality (1 == True == 1.0 coincidences are not generated)",
 ]
 ASSUMPTIONS = [
